@@ -80,6 +80,22 @@ CASES = [
      ["exact_reciprocity"], "loop1:preserved:rec"),
     ("add_random_edges draws one node too few", "hypergraphx/generation/random.py", "        edges.add(tuple(sorted(random.sample(nodes, size))))",
      "        edges.add(tuple(sorted(random.sample(nodes, size - 1))))", 0, ["add_random_edges@inplace"], "loop0:preserved:drawn"),
+    # ---- functions verified in the fourth session
+    ("clique projection skips the neighbour pair", "hypergraphx/representations/projections.py", "            for j in range(i + 1, len(edge)):", "            for j in range(i + 2, len(edge)):", 0,
+     ["clique_projection"], "loop3:entry"),
+    ("line graph uses a strict threshold", "hypergraphx/representations/projections.py", "                    w = _distance(e_i, e_j)\n                    if w >= s:",
+     "                    w = _distance(e_i, e_j)\n                    if w > s:", 0, ["line_graph@intersection"], "loop4:preserved"),
+    ("directed line graph reads the source of the first hyperedge", "hypergraphx/representations/projections.py", "                source = set(edge1[1])", "                source = set(edge1[0])", 0,
+     ["directed_line_graph@intersection"], "loop2:preserved"),
+    ("s_betweenness drops the threshold", "hypergraphx/measures/s_centralities.py", "    lg, id_to_edge = line_graph(H, s=s)\n    b = nx.betweenness_centrality(lg)\n    return",
+     "    lg, id_to_edge = line_graph(H)\n    b = nx.betweenness_centrality(lg)\n    return", 0, ["s_betweenness"], "ensures:links"),
+    ("signature vector indexed (target, source)", "hypergraphx/measures/directed/hyperedge_signature.py", "signature[source_size - 1, target_size - 1] += 1", "signature[target_size - 1, source_size - 1] += 1", 0,
+     ["hyperedge_signature_vector@bound"], "loop0:preserved:cells"),
+    ("transition matrix adds the size instead of size - 1 one way", "hypergraphx/dynamics/randwalk.py", "                T[l[j], l[i]] += len(l) - 1", "                T[l[j], l[i]] += len(l)", 0,
+     ["transition_matrix"], "loop2:preserved:cells"),
+    ("chain step writes the first new hyperedge twice", SA, "            hye_list[idx2] = set(new_hye2)", "            hye_list[idx2] = set(new_hye1)", 0, ["HyMMSBMSampler._mcmc_step"], "ensures:degrees"),
+    ("random_hypergraph draws from one node too many", "hypergraphx/generation/random.py", "    nodes = list(range(num_nodes))\n    h.add_nodes(nodes)", "    nodes = list(range(num_nodes + 1))\n    h.add_nodes(nodes)", 0,
+     ["random_hypergraph"], "loop0:entry:V"),
     # ---- hygiene-only and behaviour-preserving changes: nothing may fail
     ("bfs: depth counter dropped from the queue records' use (same search)", "hypergraphx/utils/visits.py",
      "                queue.extend((n, depth + 1) for n in neighbors if n not in visited)", "                queue.extend((n, depth + 2) for n in neighbors if n not in visited)", 0, ["_bfs"], None),
@@ -99,45 +115,53 @@ CASES = [
 
 
 def run():
-    from .pyvc.run import verify_one
     from .pyvc import axiom_check
     if axiom_check.run() != 0:        # the theory axioms evaluated in the intended model (evidence/axioms.json)
         return 1
     t0 = time.time()
     tmp = tempfile.mkdtemp(prefix="hvselftest.")
-    results, ok_all = [], True
-    try:
-        src = os.path.join(os.environ.get("VERIF_REPO", "/repo"), "hypergraphx")
-        for name, f, old, new, occ, quals, expect in CASES:
-            scratch = os.path.join(tmp, "repo")
-            shutil.rmtree(scratch, ignore_errors=True)
-            shutil.copytree(src, os.path.join(scratch, "hypergraphx"))
+    ok_all = True
+    src = os.path.join(os.environ.get("VERIF_REPO", "/repo"), "hypergraphx")
+    from .pyvc.run import verify_guarded
+    from .pyvc.engine import Engine                    # noqa: F401  (imported before the worker threads fork)
+    from .contracts.registry import build
+    build()
+
+    def one(item):
+        k, (name, f, old, new, occ, quals, expect) = item
+        scratch = os.path.join(tmp, f"repo{k}")
+        shutil.copytree(src, os.path.join(scratch, "hypergraphx"))
+        try:
             path = os.path.join(scratch, f)
             s = open(path).read()
             if s.count(old) < occ + 1:
-                results.append(dict(case=name, verdict="STALE", note="pattern not found in the current source"))
-                ok_all = False
-                continue
+                return dict(case=name, verdict="STALE", note="pattern not found in the current source"), "BAD  " + name + ": stale pattern"
             idx = -1
             for _ in range(occ + 1):
                 idx = s.index(old, idx + 1)
             open(path, "w").write(s[:idx] + new + s[idx + len(old):])
             failed, undecided = [], []
             for q in quals:
-                r = verify_one((q, scratch, 20000))
+                r = verify_guarded((q, scratch, 20000))
                 if r["status"] != "ok":
                     undecided.append(f"{q}: {r['status']} {r['reason'][:120]}")
                 for o in r["obligations"]:
                     if o["kind"] != "canary" and o["status"] != "discharged" and o["tag"] != "hygiene":
                         failed.append(o["name"])
-            if expect is None:
-                good = not failed and not undecided
-            else:
-                good = any(expect in n for n in failed)
-            ok_all &= good
-            results.append(dict(case=name, expected=("a failing obligation containing '%s'" % expect) if expect else "all obligations discharged",
-                                failed=sorted(set(failed))[:6], undecided=undecided, verdict="OK" if good else "UNEXPECTED"))
-            print(("ok   " if good else "BAD  ") + name + (": " + ", ".join(sorted(set(failed))[:3]) if failed else ""))
+            good = (not failed and not undecided) if expect is None else any(expect in n for n in failed)
+            res = dict(case=name, expected=("a failing obligation containing '%s'" % expect) if expect else "all obligations discharged",
+                       failed=sorted(set(failed))[:6], undecided=undecided, verdict="OK" if good else "UNEXPECTED")
+            return res, ("ok   " if good else "BAD  ") + name + (": " + ", ".join(sorted(set(failed))[:3]) if failed else "")
+        finally:
+            shutil.rmtree(scratch, ignore_errors=True)
+    try:
+        from concurrent.futures import ThreadPoolExecutor
+        with ThreadPoolExecutor(max_workers=int(os.environ.get("VERIF_SELFTEST_JOBS", "8"))) as ex:
+            outs = list(ex.map(one, enumerate(CASES)))
+        results = [r for r, _ in outs]
+        for _, line in outs:
+            print(line)
+        ok_all = all(r["verdict"] == "OK" for r in results)
     finally:
         shutil.rmtree(tmp, ignore_errors=True)
     ev = dict(cases=len(CASES), as_expected=sum(r["verdict"] == "OK" for r in results), results=results, wall_s=round(time.time() - t0, 1))
